@@ -66,7 +66,7 @@ var layouts = []layout{
 	{"F:1key/2grants/t1", 1, 1, []*envelope.EnvelopeGrantConfig{g(1, 0), g(1, 0)}},
 }
 
-var contexts = []string{"", "ctx-a", "ctx-a ", "ctx-b", "5:ctx-a 1", "ctx-a\x00"}
+var contexts = []string{"", "ctx-a", "ctx-a ", "ctx-b", "5:ctx-a 1", "ctx-a\x00", " ctx-a", "CTX-A", strings.Repeat("c", 70), strings.Repeat("c", 70) + "x"}
 
 var payloads = [][]byte{{0x42}, []byte("secret payload"), bytes.Repeat([]byte{0xa5}, 40)}
 
@@ -106,7 +106,7 @@ func TestC18(t *testing.T) {
 	expired := func() bool { return run.Expired() || time.Since(t0) > limit }
 	quick := run.Quick()
 
-	acc := enum.NewAcc(run, "6 envelope layouts sealed by the real BuildEnvelope; (a) every layout sealed under each of 6 contexts and unsealed under each of the 6; (b) each sealed envelope put through a field-level deviation menu (threshold values, envelope id, context hash incl. every bit flip, payload ciphertext incl. every bit flip and truncation, grants dropped/duplicated/permuted/emptied, key index lists permuted/out of range/shortened, every grant ciphertext bit flip and truncation, transplanted ciphertexts, key entries dropped/duplicated/reordered/replaced and every PEM bit flip, grants re-encrypted by an attacker to a recipient's public key with forged share lists) and all ordered pairs of a representative sub-menu; (c) every byte substitution, truncation and one-byte extension of the marshalled envelope; (d) all short byte strings decoded as envelopes; every case is unsealed with all recipient private keys; distinct by (group, fixture, description); the untouched envelopes under their own context are the trivial fixtures")
+	acc := enum.NewAcc(run, "6 envelope layouts sealed by the real BuildEnvelope; (a) every layout sealed under each of 10 contexts and unsealed under each of the 10; (b) each sealed envelope put through a field-level deviation menu (threshold values, envelope id, context hash incl. every bit flip, payload ciphertext incl. every bit flip and truncation, grants dropped/duplicated/permuted/emptied, key index lists permuted/out of range/shortened, every grant ciphertext bit flip and truncation, transplanted ciphertexts, key entries dropped/duplicated/reordered/replaced and every PEM bit flip, grants re-encrypted by an attacker to a recipient's public key with forged share lists) and all ordered pairs of a representative sub-menu; (c) every byte substitution, truncation and one-byte extension of the marshalled envelope; (d) all short byte strings decoded as envelopes; every case is unsealed with all recipient private keys; distinct by (group, fixture, description); the untouched envelopes under their own context are the trivial fixtures")
 
 	keys := enum.Keys(4)
 	unrelated := keys[3]
@@ -487,6 +487,20 @@ func TestC18(t *testing.T) {
 						rep = append(rep, m)
 					}
 				}
+				// lengths between the 34-byte minimum the decryptor checks and its 36-byte header,
+				// with every value of the first byte (which re-keys the header decryption)
+				for _, n := range []int{34, 35} {
+					for v := 0; v < 256; v++ {
+						if n > len(ct) || byte(v) == ct[0] {
+							continue
+						}
+						c := append([]byte{}, ct[:n]...)
+						c[0] = byte(v)
+						m := set(fmt.Sprintf("trunc[%d]+subst[0]=%02x", n, v), c)
+						m.group = "grant-ciphertext-trunc+subst"
+						all = append(all, m)
+					}
+				}
 				for i := 0; i < len(ct)*8; i++ {
 					m := set(fmt.Sprintf("flip[%d]", i), flipBit(ct, i))
 					m.group = "grant-ciphertext-bitflip"
@@ -796,7 +810,7 @@ func TestC18(t *testing.T) {
 		"a tampered envelope is always unsealed with all recipient private keys (the most the recipients can reach)",
 		"forged grants use the package's own grant-encryption context function (export shim) and the public peer.EncryptToPubKey: the attacker knows the algorithm, the recipient public keys, the envelope id and the context string",
 		"deviations beyond the stated menu (in particular re-encrypting BOTH a grant and the payload, i.e. building a new envelope) are outside the bound; envelopes carry no sender authentication by design",
-		"sealing randomness comes from a deterministic stream; payloads/contexts come from a fixed menu")
+		"BuildEnvelope is given a deterministic stream, but circl's Ristretto255 group ignores the reader and draws the secret and polynomial from crypto/rand, so envelope ids, share values and ciphertext bytes differ from run to run; no oracle compares them; payloads/contexts come from a fixed menu")
 	run.Finish(t)
 }
 
